@@ -78,6 +78,15 @@ func (h HookSpec) AwaitExpr() string {
 // DefaultTimeout is given to hooks that are not meant to time out.
 const DefaultTimeout = "25s"
 
+// Bounded progress: nothing in a hook set can legitimately keep a transition
+// longer than its longest hook timeout (gates are the lab's own and are opened
+// when the FSM waits for them). HangSlack after that the lab takes a first look,
+// HangConfirm later a second one.
+const (
+	HangSlack   = 20 * time.Second
+	HangConfirm = 5 * time.Second
+)
+
 // ---------------------------------------------------------------- records
 
 type Kind string
@@ -97,6 +106,7 @@ const (
 	KTeardownEnd   Kind = "teardown_end"
 	KLeak          Kind = "leak"
 	KAnomaly       Kind = "anomaly"
+	KHang          Kind = "hang"
 )
 
 type InvRef struct {
@@ -181,6 +191,10 @@ type Lab struct {
 	OnRecord func(*Record)               // called for every record, under the lab's mutex, after Seq/G were set
 	StampG   bool                        // stamp every record with the id of the goroutine that wrote it
 
+	hangAfter       time.Duration
+	hung            bool
+	lateUnconfirmed int
+
 	// PollInterval is the controller's polling period.
 	PollInterval time.Duration
 	// Watchdog bounds every wait of the lab; expiry yields an anomaly record.
@@ -249,6 +263,16 @@ func (w *World) NewLab(hooks []HookSpec, userVars map[string]string) (*Lab, erro
 	}
 	l := &Lab{W: w, Env: env, ID: id.String(), hooks: map[string]*hookState{}, byTaskID: map[string]*hookState{}, k: -1,
 		PollInterval: 100 * time.Microsecond, Watchdog: 60 * time.Second}
+	maxTimeout, _ := time.ParseDuration(DefaultTimeout)
+	for _, h := range hooks {
+		if d, err := time.ParseDuration(h.Timeout); err == nil && d > maxTimeout {
+			maxTimeout = d
+		}
+	}
+	l.hangAfter = maxTimeout + HangSlack
+	if l.Watchdog < l.hangAfter+2*HangConfirm+10*time.Second {
+		l.Watchdog = l.hangAfter + 2*HangConfirm + 10*time.Second
+	}
 	for _, h := range hooks {
 		hs := &hookState{spec: h}
 		hs.tname, hs.tw = ParseExpr(h.Trigger)
@@ -542,11 +566,24 @@ func (l *Lab) deliver(hs *hookState, inv int, beh Behaviour, gt chan struct{}, c
 		return // the executor never reports; the environment's own timer decides
 	}
 	if beh == TaskLateReport {
+		// report only after the environment has accounted the hook as timed out: it says
+		// so in its log, right before it goes back to waiting for the other hooks (a
+		// late-report hook times out in every one of its invocations, so the inv-th
+		// message belongs to this invocation)
 		d, err := time.ParseDuration(hs.spec.Timeout)
 		if err != nil {
 			d = 30 * time.Millisecond
 		}
-		time.Sleep(d + 50*time.Millisecond) // timers never fire early
+		tid := hs.task.GetTaskId()
+		limit := time.Now().Add(d + 5*time.Second)
+		for l.W.timeoutsSeen(tid) < inv && time.Now().Before(limit) {
+			time.Sleep(time.Millisecond)
+		}
+		if l.W.timeoutsSeen(tid) < inv {
+			l.mu.Lock()
+			l.lateUnconfirmed++
+			l.mu.Unlock()
+		}
 	}
 	l.deliverMu.Lock()
 	defer l.deliverMu.Unlock()
@@ -661,6 +698,9 @@ type TransResult struct {
 	ErrText string
 	State   string         // CurrentState() afterwards
 	Pending map[string]int // VerifPendingAwait afterwards (quiescent)
+	// Hang != "": the transition never returned (innermost repository function the driver
+	// goroutine sits in); Err/State are meaningless and the lab must be abandoned.
+	Hang string
 }
 
 // Transition runs env.TryTransition(event) with the gate controller and returns
@@ -692,7 +732,10 @@ func (l *Lab) Transition(ev string, body BodyFunc) TransResult {
 	})
 	stale := driverIDs(Goroutines())
 	go func() { done <- l.Env.TryTransition(tr) }()
-	err := l.control(done, stale)
+	err, hang := l.control(done, stale)
+	if hang != "" {
+		return TransResult{Occ: occ, Hang: hang}
+	}
 	res := TransResult{Occ: occ, Err: err, State: l.Env.CurrentState()}
 	r := Record{Kind: KTransEnd, Event: ev, Src: src, State: res.State}
 	if err != nil {
@@ -713,6 +756,7 @@ type TeardownResult struct {
 	State   string
 	Leaked  int // call goroutines of this lab neither collected nor cancelled
 	Pending map[string]int
+	Hang    string // as TransResult.Hang
 }
 
 // Teardown runs the real Manager.TeardownEnvironment (which handles the
@@ -730,7 +774,10 @@ func (l *Lab) Teardown(force bool) TeardownResult {
 	done := make(chan error, 1)
 	stale := driverIDs(Goroutines())
 	go func() { done <- l.W.Mgr.TeardownEnvironment(l.Env.Id(), force) }()
-	err := l.control(done, stale)
+	err, hang := l.control(done, stale)
+	if hang != "" {
+		return TeardownResult{Occ: occ, Hang: hang}
+	}
 	res := TeardownResult{Occ: occ, Err: err, State: l.Env.CurrentState()}
 	r := Record{Kind: KTeardownEnd, Event: "DESTROY", State: res.State}
 	if err != nil {
@@ -808,15 +855,22 @@ func (w *World) leakBaseAdd(n int) {
 }
 
 // control polls until the driven call returns; see the package comment.
-func (l *Lab) control(done chan error, stale map[int]bool) error {
+func (l *Lab) control(done chan error, stale map[int]bool) (error, string) {
 	start := time.Now()
+	hangLooked := false
 	lastN := -1
 	quietStreak := 0
 	for {
 		select {
 		case err := <-done:
-			return err
+			return err, ""
 		default:
+		}
+		if !hangLooked && time.Since(start) > l.hangAfter {
+			hangLooked = true
+			if err, site, decided := l.hangCheck(done, stale); decided {
+				return err, site
+			}
 		}
 		gs := Goroutines()
 		found, blocked := driverBlockedOnHooks(gs, stale)
@@ -872,14 +926,74 @@ func (l *Lab) control(done chan error, stale map[int]bool) error {
 			l.mu.Unlock()
 			select {
 			case err := <-done:
-				return err
+				return err, ""
 			case <-time.After(l.Watchdog):
 				l.anomaly("watchdog: driven call stuck for good")
-				return errors.New("envlab: watchdog")
+				return errors.New("envlab: watchdog"), ""
 			}
 		}
 		time.Sleep(l.PollInterval)
 	}
+}
+
+// hangCheck is the bounded-progress rule (see HangSlack). First look: every gate
+// the current occurrence could be waiting for is opened (whatever kept the
+// controller from doing so) and the number of records is noted. Second look,
+// HangConfirm later: if the driven call still has not returned, nothing was
+// recorded, nothing of the lab is in flight and the driver goroutine is parked
+// in repository code, the call is declared hung.
+func (l *Lab) hangCheck(done chan error, stale map[int]bool) (error, string, bool) {
+	look := func() (int, bool) {
+		l.mu.Lock()
+		defer l.mu.Unlock()
+		opened := false
+		for _, g := range l.openGates() {
+			if _, due := l.duePos(g); due {
+				l.release(g)
+				opened = true
+			}
+		}
+		return len(l.recs), opened
+	}
+	n1, _ := look()
+	for round := 0; round < 2; round++ {
+		select {
+		case err := <-done:
+			return err, "", true
+		case <-time.After(HangConfirm):
+		}
+		n2, opened := look()
+		gs := Goroutines()
+		found, parked, inRepo, site := driverSite(gs, stale)
+		l.mu.Lock()
+		busy := l.busy
+		l.mu.Unlock()
+		if n2 == n1 && !opened && busy == 0 && found && parked && inRepo && site != "" {
+			l.mu.Lock()
+			l.hung = true
+			l.addLocked(Record{Kind: KHang, Msg: site, Event: l.cur.Event})
+			l.mu.Unlock()
+			return nil, site, true
+		}
+		n1 = n2
+	}
+	return nil, "", false // still moving: the ordinary watchdog goes on
+}
+
+// Hung tells whether a driven call of this lab never returned.
+func (l *Lab) Hung() bool {
+	l.mu.Lock()
+	defer l.mu.Unlock()
+	return l.hung
+}
+
+// LateUnconfirmed counts late-report invocations for which the lab could not
+// confirm (from the environment's log) that the timeout had been accounted
+// before the late termination was handed over.
+func (l *Lab) LateUnconfirmed() int {
+	l.mu.Lock()
+	defer l.mu.Unlock()
+	return l.lateUnconfirmed
 }
 
 // afterOccurrence releases the gates the finished occurrence should have
